@@ -209,12 +209,24 @@ def moved_attrs(repo, cls, fn, motion_params, depth=0, seen=None):
                 except Exception:
                     pnames, pattrs = [], {}
                 bound = list(zip(pnames, n.args)) + [(k.arg, k.value) for k in n.keywords if k.arg]
+                moved_params = set()
                 for pn, a in bound:
                     if not is_tainted(a):
                         continue
                     reads = self_attrs(a)
                     fed = {x.lstrip("_") for x in pattrs.get(pn, [])} | {pn.lstrip("_")}
+                    if reads & fed:
+                        moved_params.add(pn)
                     moved |= reads & fed
+                # what the constructor of the new object computes from moved parameters only is moved with them
+                if tc is cls or tc in repo.mro(cls):
+                    try:
+                        for a_ in cm.attributes():
+                            fp_ = cm.feeding_params(a_)
+                            if fp_ and fp_ <= moved_params:
+                                moved.add(a_.lstrip("_"))
+                    except Exception:
+                        pass
                 continue
             h = helper_of(n)
             if h is not None:
@@ -324,6 +336,10 @@ def run(repo, res, tier):
                 ok = any(pol and norm(t) in ("%s == 0" % ang, "%s == 0.0" % ang, "0 == %s" % ang) for t, pol in g)
             res.check("T1-MATRIX", "%s: returned matrix contains the rotation block" % fname, ok, tmod, r, "%s: %s" % (fname, norm(r)[:80]), "a matrix without the rotation is returned for some angles (not only for angle == 0 exactly): small rotations are dropped while orientations still change", qualname=fname)
 
+    # ------------------------------------------------------------ T3 on the containers: decided by evaluation
+    from . import c05ev
+
+    c05ev.fanout_rules(repo, res, "T3-FANOUT")
     # ------------------------------------------------------------ T2 / T3 / T6 over every translate_rotate
     sp = spatial_classes(repo)
     methods = []
@@ -374,7 +390,11 @@ def run(repo, res, tier):
                 key = (a, tuple(sorted(names)))
                 if not any(t[1] == a for t in todo):
                     todo.append((u, a, eff.expand_aliases(names)))
+        moved_by_user = {}
         for u, a, names in todo:
+            # hooks the method calls on self are resolved in the class the object really has (template methods)
+            if u.name not in moved_by_user:
+                moved_by_user[u.name] = moved_norm if u is cls else (moved_attrs(repo, u, fn, [tr, an]) | moved_norm)
             spatial = bool(names & sp) or "ndarray" in names or a.lstrip("_") in SPATIAL_NAMES
             if a.lstrip("_") in ("orientation",) and cls.name not in ("Rectangle",) and "State" not in [c.name for c in repo.mro(cls)]:
                 spatial = spatial
@@ -388,7 +408,7 @@ def run(repo, res, tier):
             res.check(
                 "T2-COVERAGE",
                 inst,
-                a.lstrip("_") in moved_norm,
+                a.lstrip("_") in moved_by_user[u.name],
                 mod,
                 fn,
                 "%s does not move %s" % (qn, a),
